@@ -610,7 +610,29 @@ def error_first(F, R):
              'poll_service can return (or poll the service readiness) without having examined the recorded error: while the service is not ready a failed handler never stops the connection', ps.loc((late or before or [0])[0]))
 
 
+def sender_visible_while_suspended(F, R):
+    """Every teardown path tells the payload reader about the end of the connection through the sender stored in
+    MqttShared::payload (drop_payload takes it from there). Code that takes the sender out of the cell therefore puts it (or a
+    clone) back before it suspends: from a `payload.take()` no suspension point of the coroutine is reachable without passing
+    `payload.set(..)`. A sender held in a local across an await is invisible to shutdown()/ControlService/control_pkt while the
+    task is parked, and the reader sees a clean end of a truncated payload instead of an error."""
+    n = 0
+    for b in F.find(r'^(<)?v[35]::'):
+        takes = [bi for bi, t, ap in calls_on_field(b, r'Cell::<T>::take$', 'payload')]
+        if not takes or not b.d.get('coroutine') and not b.yields():
+            continue
+        sets = {bi for bi, t, ap in calls_on_field(b, r'Cell::<T>::set$', 'payload')}
+        ys = set(b.yields())
+        for bi in takes:
+            n += 1
+            bad = sorted(ys & b.reachable_after(bi, avoid=sets))
+            R.ob('C07.drain', '%s|payload.take()|sender-back-in-the-cell-before-any-suspension' % (re.sub(r'^<', '', b.path).split(' as ')[0].split('<')[0] + '::' + (re.findall(r'>::(\w+)', b.path) or [b.path.split('::')[-1]])[-1]), not bad,
+                 'after payload.take() the task can suspend (await) while the sender is held only in a local: a connection that ends meanwhile cannot fail the payload reader', b.loc(bad[0]) if bad else b.loc(bi))
+    R.floor('C07.drain', 'payload.take() sites in suspendable dispatcher code', n, 6)
+
+
 def run(F, R):
+    sender_visible_while_suspended(F, R)
     error_wakes(F, R)
     error_first(F, R)
     every_error_recorded(F, R)
